@@ -74,6 +74,7 @@ def write(batch, known, seen_known, n_violations, replay_files):
             "rule": spec["rule"],
             "samples": samples,
             "planned_runs": batch["planned_runs"],
+            "runs_abandoned_in_flight_at_the_time_budget": len(batch.get("abandoned") or []),
             "steps_total": steps,
             "simulated_time": "no clock exists in the anchored code; simulated time = steps_total operations",
             "runs_per_hour": int(n / max(wall, 1e-9) * 3600),
